@@ -424,11 +424,12 @@ def run(tier: str) -> int:
         pf.write_text(json.dumps(pages))
         grid = "GT" if thorough else "GQ"
         plan = [(grid, 48 if thorough else 10, "GenInv"), ("EL", 2, "GenInv"), ("CALL", 2, "GenInv"),
-                ("NEST", 2, "GenInv"), ("PAIR", 2, "GenInv"), ("HIST", 2, "GenInvH"),
+                ("NEST", 2, "GenInv"), ("PAIRT" if thorough else "PAIR", 6 if thorough else 1, "GenInv"),
+                ("HISTT" if thorough else "HIST", 8 if thorough else 1, "GenInvH"),
                 ("FILE", 16 if thorough else 4, "GenInvF")]
         import os  # TIMING-TOGGLE
         if os.environ.get("C03_OLD"):  # TIMING-TOGGLE
-            plan = [x for x in plan if x[0] not in ("PAIR", "HIST")]  # TIMING-TOGGLE
+            plan = [x for x in plan if x[0] not in ("PAIR", "HIST", "PAIRT", "HISTT")]  # TIMING-TOGGLE
         agg = run_plan(o, plan, known, tags_file, str(pf))
         o.extra["action_coverage"] = dict(sorted(agg["cov"].items()))
         o.extra["cases_per_universe"] = {u: a["n"] for u, a in agg["per"].items()}
